@@ -49,6 +49,35 @@ mod annotation {
 //@extract crates/samlang-ast/src/source.rs :: mod annotation / struct TypeParameter
 //@keeppub
 //@end
+//@extract crates/samlang-ast/src/source.rs :: mod annotation / enum PrimitiveTypeKind
+//@keeppub
+//@end
+//@extract crates/samlang-ast/src/source.rs :: mod annotation / struct ParenthesizedAnnotationList
+//@keeppub
+//@end
+//@extract crates/samlang-ast/src/source.rs :: mod annotation / struct Function
+//@keeppub
+//@end
+//@extract crates/samlang-ast/src/source.rs :: mod annotation / enum T
+//@keeppub
+//@end
+  impl T {
+    /// the range a type annotation carries, per variant
+    pub open spec fn range(self) -> Location {
+      match self {
+        T::Primitive(l, _, _) => l,
+        T::Id(annot) => annot.location,
+        T::Generic(l, _) => l,
+        T::Fn(annot) => annot.location,
+      }
+    }
+//@extract crates/samlang-ast/src/source.rs :: mod annotation / impl T / fn location
+//@keeppub
+//@ret r
+//@contract
+      ensures r == self.range(),  // :annotation_location_is_the_range_stored_in_its_variant
+//@end
+  }
 }
 
 // ---- the parser, reduced to what the two productions use
@@ -443,6 +472,19 @@ fn no_comment_reference() -> (r: CommentReference) { unimplemented!() }
         && exists|end: Location| r.loc == #[trigger] joined(start_loc, end),  // :expression_list_range_runs_from_opening_to_closing_parenthesis
 //@before expr::ParenthesizedExpressionList {
     assert(exists|end: Location| loc == #[trigger] joined(start_loc, end));
+//@end
+
+#[verifier::external_body]
+fn parse_annotation(parser: &mut SourceParser) -> (r: annotation::T) { unimplemented!() }
+// ---- a function type annotation `(A, B) -> R` runs from its opening parenthesis to the end of its return type
+//@extractblock crates/samlang-parser/src/source_parser.rs :: mod type_parser / fn parse_annotation_with_additional_comments
+//@from let return_type = parse_annotation(parser);
+//@to return_type: Box::new(return_type), })
+//@wrap fn function_annotation_node(parser: &mut SourceParser, peeked: Token, associated_comments: Vec<Comment>, parameters: annotation::ParenthesizedAnnotationList) -> (r: annotation::T)
+//@contract
+    ensures
+      r matches annotation::T::Fn(f) && f.parameters == parameters
+        && encloses(r.range(), peeked.0) && encloses(r.range(), f.return_type.range()),  // :function_annotation_range_runs_from_its_parenthesis_over_its_return_type
 //@end
 
 // =====================================================================================
